@@ -46,3 +46,22 @@ Theorem C05u_counts_agree_after_recovery : forall g policy u held0 n sch classin
     llfree_validate g u' = Ok tt.
 Proof. exact conc_upper_crash_counts. Qed.
 Print Assumptions C05u_counts_agree_after_recovery.
+
+(* ... and with ANY tree change in the schedule (a concurrent change_tree(.., Online) included) and NO hypothesis on
+   the policy (UpperConcWeak.v: the weak invariant keeps M1's invariant for the lower view although the upper
+   accounting may be broken by an Online race, finding D16).  `m1w g s L` is `m1_of g s` with a ghost list L of blocks
+   leaked by gets that panicked in upper code after the lower allocator had handed them out. *)
+From LLF Require Import UpperConcWeak.
+Theorem C05u_crash_safe_with_any_tree_change : forall g policy u held0 n sch,
+  wf_geom g ->
+  UpperInv g policy (ustate_new u) ->
+  HeldInit g (low u) held0 ->
+  sched_valid_w g u sch ->
+  let s := urun g policy sch (uboot u held0 n) in
+  let l := low (m2_up s) in
+  let m := lower_recover g l in
+  LowerPre g l /\ LowerInv g m /\ abs g m = abs g l /\
+  (forall f k, In (f, k) (m2_held s ++ flat_map (inflight g) (m2_pool s)) -> spec_put_enabled g (abs g m) f k = true) /\
+  exists L, forall f, N.testbit (o_alloc (abs g m)) f = true -> covered_by_held (m1w g s L) f \/ touched g (m1w g s L) f.
+Proof. exact conc_upper_crash_safe_weak. Qed.
+Print Assumptions C05u_crash_safe_with_any_tree_change.
